@@ -104,8 +104,8 @@ impl Renderer {
 		// convert from frames to requested number of channels
 		for (i, channels) in chunk.chunks_mut(num_channels.into()).enumerate() {
 			let mut frame = self.temp_buffer[i];
-			frame.left = frame.left.clamp(-1.0, 1.0);
-			frame.right = frame.right.clamp(-1.0, 1.0);
+			frame.left = finite_clamped(frame.left);
+			frame.right = finite_clamped(frame.right);
 			if num_channels == 1 {
 				channels[0] = (frame.left + frame.right) / 2.0;
 			} else {
@@ -122,5 +122,17 @@ impl Renderer {
 			}
 		}
 		self.temp_buffer.fill(Frame::ZERO);
+	}
+}
+
+/// Clamps a sample to the range a device accepts. `f32::clamp` passes NaN
+/// through, so a NaN on the mixer bus is replaced with silence: every sample
+/// written to the device buffer is a finite number in `-1.0..=1.0`.
+#[must_use]
+fn finite_clamped(sample: f32) -> f32 {
+	if sample.is_nan() {
+		0.0
+	} else {
+		sample.clamp(-1.0, 1.0)
 	}
 }
